@@ -11,7 +11,7 @@ use crate::realrun::{self, CompileOutcome, RunCfg};
 use cvx_core::engine::{Check, CheckInfo, ChunkResult, Tier, Violation};
 use cvx_core::gen_basic::{CfgLite, Family};
 use cvx_core::gen_more::FCall;
-use cvx_core::gen_resolve::{FBadNames, FCallMain, FImportScope, FResolve, FSuperLike};
+use cvx_core::gen_resolve::{FBadNames, FCallMain, FConcat, FImportScope, FResolve, FSuperLike};
 use cvx_core::ir::Module;
 use cvx_core::refsem::{self, CompileVerdict};
 use serde_json::Value as J;
@@ -57,7 +57,7 @@ impl Judge for ResolveJudge {
 static FAMS: OnceLock<Vec<Box<dyn Family>>> = OnceLock::new();
 
 pub fn families(_tier: Tier) -> &'static Vec<Box<dyn Family>> {
-    FAMS.get_or_init(|| vec![Box::new(FCallMain), Box::new(FSuperLike), Box::new(FBadNames), Box::new(FCall), Box::new(FResolve), Box::new(FImportScope)])
+    FAMS.get_or_init(|| vec![Box::new(FCallMain), Box::new(FConcat), Box::new(FSuperLike), Box::new(FBadNames), Box::new(FCall), Box::new(FResolve), Box::new(FImportScope)])
 }
 
 static JUDGE: ResolveJudge = ResolveJudge;
@@ -69,7 +69,7 @@ impl Check for C08 {
     fn info(&self, tier: Tier) -> CheckInfo {
         let fams = families(tier);
         CheckInfo {
-            rule: "F-resolve: 128 module trees (presence of f/g in root, a, a.b, b: same short names reused across modules) x call site in root / a / a.b x 10 called names (f, g, a.f, a.b.f, b.f, b.g, std.row_to_value, x, filter, a.b.g) x static Call / Function value + dynamic call x 20 import lists (function imports, module-prefix imports, super. walking up one to three levels, no dot, duplicates, ambiguous pairs, library imports); every generated function logs and returns its own full path. F-import-scope: the same trees with the import list on one module and the import-less caller in another (descendant, parent, sibling; 6 pairs) x 10 called names x 20 import lists. F-badnames: invalid / reserved / duplicate function and module names and user functions named like library functions at three levels. F-call: arity 0-3, parameter binding, caller-locals canary, return positions, recursion. Oracle: independent resolver over the module tree (absolute path, caller's module, function imports, module-prefix imports) + reference run. 'states' = distinct reference outcomes per chunk".into(),
+            rule: "F-resolve: 128 module trees (presence of f/g in root, a, a.b, b: same short names reused across modules) x call site in root / a / a.b x 10 called names (f, g, a.f, a.b.f, b.f, b.g, std.row_to_value, x, filter, a.b.g) x static Call / Function value + dynamic call x 20 import lists (function imports, module-prefix imports, super. walking up one to three levels, no dot, duplicates, ambiguous pairs, library imports); every generated function logs and returns its own full path. F-import-scope: the same trees with the import list on one module and the import-less caller in another (descendant, parent, sibling; 6 pairs) x 10 called names x 20 import lists. F-concat: every ordered pair of 9 call sites (module path, called name) of which four read alike once path and name are written without a separator (root:abf, a:bf, a.b:f, ab:f), static and dynamic. F-badnames: invalid / reserved / duplicate function and module names and user functions named like library functions at three levels. F-call: arity 0-3, parameter binding, caller-locals canary, return positions, recursion. Oracle: independent resolver over the module tree (absolute path, caller's module, function imports, module-prefix imports) + reference run. 'states' = distinct reference outcomes per chunk".into(),
             bound: format!("families {:?}, {} module trees", fams.iter().map(|f| format!("{}={}", f.name(), f.len())).collect::<Vec<_>>(), progcheck::total_cases(fams)),
             exhaustive: true,
             assumptions: vec![
